@@ -33,6 +33,14 @@
 //! xbytes: input = (-6 <the 22 fields of bytes> stages qstages): the byte loader line with the same tables
 //! mask:   input = (-7 qstage kind ids (seed-hi seed-lo)): the TokenMasking function alone on a synthetic item (kind = variant of
 //!         TrainTaskInput) — the known answers for rand_distr::Geometric; output = (0) | (1 ids rep) | (-777)
+//! kitem:  input = (-8 <the fields of xitem>), kbytes: input = (-9 <the fields of xbytes>): the same two lines with EVERY
+//!         tokenizer kind in the task (topic Q; model: Pipeline_Toks.v): a tokenizer is
+//!         (tokens pad prefix suffix padto?) byte | (1 tokens pad prefix suffix unk g alphabet) character (the alphabet is read from
+//!         the real tokenizer) | (2 tokens pad prefix suffix table maxv? file?) BPE (file? = () | ((byte ..)) a hand-made merge file)
+#[path = "../bpe_common.rs"]
+mod bpec;
+#[path = "../tok_common.rs"]
+mod tokc;
 use std::collections::hash_map::DefaultHasher;
 use std::collections::HashMap;
 use std::hash::{Hash, Hasher};
@@ -48,7 +56,8 @@ use text_utils::data::{
     train_pipeline, PostprocessingConfig, PreprocessingConfig, TextDataInfo, TrainItem, TrainPipelineConfig,
 };
 use text_utils::tokenization::{
-    ByteGroups, ByteTokenizerConfig, GroupAggregation, SpecialConfig, TokenizeConfig, TokenizerConfig,
+    BPETokenizerConfig, ByteGroups, ByteTokenizerConfig, CharTokenizerConfig, GroupAggregation, SpecialConfig, TokenizeConfig,
+    TokenizerConfig,
 };
 use vh::*;
 
@@ -961,6 +970,14 @@ fn direct_run(input: &Val) -> Option<(Val, Vec<String>)> {
 // exact loader line: everything the model needs is in the input, nothing is computed with the crate
 // ---------------------------------------------------------------------------------------------
 
+#[derive(Clone, Debug, PartialEq)]
+enum TokKind {
+    Byte,
+    Char { unk: String, g: bool },
+    /// table = the merge file in id order; file = the bytes of a hand-made merge file (then the tokenizer is built from them)
+    Bpe { table: Vec<Vec<u8>>, maxv: Option<usize>, file: Option<Vec<u8>> },
+}
+
 #[derive(Clone, Debug)]
 struct TokSpec {
     tokens: Vec<String>,
@@ -968,6 +985,7 @@ struct TokSpec {
     prefix: Vec<String>,
     suffix: Vec<String>,
     padto: Option<usize>,
+    kind: TokKind,
 }
 
 #[derive(Clone, Debug)]
@@ -1108,7 +1126,7 @@ impl XSpec {
             [k] => Some(k.as_usize()?),
             _ => return None,
         };
-        let tok = TokSpec { tokens: val_strs(&t[0])?, pad: t[1].to_string_lossy()?, prefix: val_strs(&t[2])?, suffix: val_strs(&t[3])?, padto };
+        let tok = TokSpec { tokens: val_strs(&t[0])?, pad: t[1].to_string_lossy()?, prefix: val_strs(&t[2])?, suffix: val_strs(&t[3])?, padto, kind: TokKind::Byte };
         if padto.map(|k| k == 0 || k > 64).unwrap_or(false) {
             return None;
         }
@@ -1266,6 +1284,7 @@ fn exact_gen(rng: &mut Rng) -> Val {
             _ => vec!["<eos>".to_string(), "<pad>".to_string()],
         },
         padto: if rng.chance(1, 3) { Some(8) } else { None },
+        kind: TokKind::Byte,
     };
     let mut x = XSpec {
         files,
@@ -1473,15 +1492,135 @@ impl C08 {
 // (Pipeline_Tasks.v, C08_Bytes.v)
 // ---------------------------------------------------------------------------------------------
 
+/// the alphabet of the real character tokenizer (it has ONE: read from `get_vocab`, as C01's harness does)
+fn char_alphabet() -> &'static Vec<char> {
+    static A: std::sync::OnceLock<Vec<char>> = std::sync::OnceLock::new();
+    A.get_or_init(tokc::alphabet)
+}
+
+fn merge_dir() -> String {
+    std::env::temp_dir().join(format!("verif-c08-{}", std::process::id())).join("merges").to_string_lossy().to_string()
+}
+
+/// the scanner of the model takes the special tokens in list order, the code in hash order: same result when no token is a
+/// prefix of another one and none is empty
+fn tokens_scannable(tokens: &[String]) -> bool {
+    for (i, a) in tokens.iter().enumerate() {
+        if a.is_empty() || a.starts_with("<extra_token_") {
+            return false;
+        }
+        for (j, b) in tokens.iter().enumerate() {
+            if i != j && a != b && b.starts_with(a.as_str()) {
+                return false;
+            }
+        }
+    }
+    tokens.len() <= 9
+}
+
 impl TokSpec {
     fn to_val(&self) -> Val {
-        Val::L(vec![
-            strs_val(&self.tokens),
-            Val::str(&self.pad),
-            strs_val(&self.prefix),
-            strs_val(&self.suffix),
-            Val::opt(self.padto, Val::u),
-        ])
+        match &self.kind {
+            TokKind::Byte => Val::L(vec![
+                strs_val(&self.tokens),
+                Val::str(&self.pad),
+                strs_val(&self.prefix),
+                strs_val(&self.suffix),
+                Val::opt(self.padto, Val::u),
+            ]),
+            TokKind::Char { unk, g } => Val::L(vec![
+                Val::I(1),
+                strs_val(&self.tokens),
+                Val::str(&self.pad),
+                strs_val(&self.prefix),
+                strs_val(&self.suffix),
+                Val::str(unk),
+                Val::b(*g),
+                Val::L(char_alphabet().iter().map(|c| Val::I(*c as i64)).collect()),
+            ]),
+            TokKind::Bpe { table, maxv, file } => Val::L(vec![
+                Val::I(2),
+                strs_val(&self.tokens),
+                Val::str(&self.pad),
+                strs_val(&self.prefix),
+                strs_val(&self.suffix),
+                bpec::table_val(table),
+                Val::opt(*maxv, Val::u),
+                Val::opt(file.as_ref(), |b| Val::bytes(b)),
+            ]),
+        }
+    }
+    /// every tokenizer kind (lines -8 / -9)
+    fn from_val_k(v: &Val) -> Option<TokSpec> {
+        let t = v.as_l()?;
+        match t.first()?.as_i() {
+            None => TokSpec::from_val(v),
+            Some(1) if t.len() == 8 => {
+                let unk = t[5].to_string_lossy()?;
+                let tok = TokSpec {
+                    tokens: val_strs(&t[1])?,
+                    pad: t[2].to_string_lossy()?,
+                    prefix: val_strs(&t[3])?,
+                    suffix: val_strs(&t[4])?,
+                    padto: None,
+                    kind: TokKind::Char { unk: unk.clone(), g: t[6].as_bool()? },
+                };
+                // the alphabet in the input must be the real one
+                let alpha: Vec<i64> = t[7].as_l()?.iter().map(|x| x.as_i()).collect::<Option<_>>()?;
+                if alpha != char_alphabet().iter().map(|c| *c as i64).collect::<Vec<_>>() {
+                    return None;
+                }
+                let mut all = tok.tokens.clone();
+                all.push(unk);
+                if !tokens_scannable(&all) {
+                    return None;
+                }
+                Some(tok)
+            }
+            Some(2) if t.len() == 8 => {
+                let table = bpec::val_table(&t[5])?;
+                if table.len() > 64 || table.iter().any(|e| e.len() > 16) {
+                    return None;
+                }
+                let maxv = match t[6].as_l()? {
+                    [] => None,
+                    [k] => Some(k.as_usize()?),
+                    _ => return None,
+                };
+                if maxv.map(|m| m > 100_000).unwrap_or(false) {
+                    return None;
+                }
+                let file = match t[7].as_l()? {
+                    [] => None,
+                    [b] => Some(val_bytes(b)?),
+                    _ => return None,
+                };
+                if let Some(fb) = &file {
+                    if fb.len() > 4000 {
+                        return None;
+                    }
+                    // a file that loads with ids other than 0..n-1 is outside the tokenizer models (tables are in id order)
+                    let (path, mf) = bpec::write_merge_file(&merge_dir(), &table, Some(fb)).ok()?;
+                    let _ = std::fs::remove_file(path);
+                    if mf.loaded.is_some() && mf.well_formed().is_none() {
+                        return None;
+                    }
+                }
+                let tok = TokSpec {
+                    tokens: val_strs(&t[1])?,
+                    pad: t[2].to_string_lossy()?,
+                    prefix: val_strs(&t[3])?,
+                    suffix: val_strs(&t[4])?,
+                    padto: None,
+                    kind: TokKind::Bpe { table, maxv, file },
+                };
+                if !tokens_scannable(&tok.tokens) {
+                    return None;
+                }
+                Some(tok)
+            }
+            _ => None,
+        }
     }
     fn from_val(v: &Val) -> Option<TokSpec> {
         let t = v.as_l()?;
@@ -1497,7 +1636,7 @@ impl TokSpec {
         if padto.map(|k| !k.is_power_of_two() || k > 64).unwrap_or(false) {
             return None;
         }
-        let tok = TokSpec { tokens: val_strs(&t[0])?, pad: t[1].to_string_lossy()?, prefix: val_strs(&t[2])?, suffix: val_strs(&t[3])?, padto };
+        let tok = TokSpec { tokens: val_strs(&t[0])?, pad: t[1].to_string_lossy()?, prefix: val_strs(&t[2])?, suffix: val_strs(&t[3])?, padto, kind: TokKind::Byte };
         // the scanner of the model takes the special tokens in list order, the code in hash order: same result when no
         // token is a prefix of another one and none is empty
         for (i, a) in tok.tokens.iter().enumerate() {
@@ -1517,12 +1656,24 @@ impl TokSpec {
     }
     fn to_real(&self) -> TokenizerConfig {
         TokenizerConfig {
-            tokenize: TokenizeConfig::Byte(ByteTokenizerConfig {
-                use_graphemes: false,
-                pad_to_multiple_of: self.padto,
-                groups: ByteGroups::Bytes,
-                aggregation: GroupAggregation::Mean,
-            }),
+            tokenize: match &self.kind {
+                TokKind::Byte => TokenizeConfig::Byte(ByteTokenizerConfig {
+                    use_graphemes: false,
+                    pad_to_multiple_of: self.padto,
+                    groups: ByteGroups::Bytes,
+                    aggregation: GroupAggregation::Mean,
+                }),
+                TokKind::Char { unk, g } => TokenizeConfig::Character(CharTokenizerConfig { use_graphemes: *g, unk_token: unk.clone() }),
+                TokKind::Bpe { table, maxv, file } => {
+                    // the merge file: written with the crate's own `save` (entry i gets id i) or the hand-made bytes; it stays
+                    // until the process ends (the loader builds the tokenizer again at every `from_files`)
+                    let path = match bpec::write_merge_file(&merge_dir(), table, file.as_deref()) {
+                        Ok((p, _)) => p,
+                        Err(_) => std::path::PathBuf::from("/nonexistent/merges"),
+                    };
+                    TokenizeConfig::BPE(BPETokenizerConfig { merge_file: path, max_vocab_size: *maxv, use_graphemes: table.len() % 2 == 0 })
+                }
+            },
             special: SpecialConfig {
                 pad: self.pad.clone(),
                 tokens: self.tokens.clone(),
@@ -1553,24 +1704,29 @@ impl TaskSpec {
         }
     }
     fn from_val(v: &Val) -> Option<TaskSpec> {
+        TaskSpec::from_val_with(v, false)
+    }
+    /// `kinds`: every tokenizer kind is accepted (lines -8 / -9), else byte tokenizers only
+    fn from_val_with(v: &Val, kinds: bool) -> Option<TaskSpec> {
+        let tok = |v: &Val| if kinds { TokSpec::from_val_k(v) } else { TokSpec::from_val(v) };
         let l = v.as_l()?;
         Some(match (l.first()?.as_i()?, l.len()) {
-            (0, 3) => TaskSpec::Wsc(l[1].as_bool()?, TokSpec::from_val(&l[2])?),
+            (0, 3) => TaskSpec::Wsc(l[1].as_bool()?, tok(&l[2])?),
             (1, 5) => {
                 let sep = match l[4].as_l()? {
                     [] => None,
                     [s] => Some(s.to_string_lossy()?),
                     _ => return None,
                 };
-                TaskSpec::Gen(l[1].as_bool()?, TokSpec::from_val(&l[2])?, l[3].as_bool()?, sep)
+                TaskSpec::Gen(l[1].as_bool()?, tok(&l[2])?, l[3].as_bool()?, sep)
             }
-            (2, 5) => TaskSpec::Cond(TokSpec::from_val(&l[1])?, l[2].as_bool()?, TokSpec::from_val(&l[3])?, l[4].as_bool()?),
+            (2, 5) => TaskSpec::Cond(tok(&l[1])?, l[2].as_bool()?, tok(&l[3])?, l[4].as_bool()?),
             (3, 4) => {
                 let cl = val_strs(&l[3])?;
                 if cl.len() > 8 {
                     return None;
                 }
-                TaskSpec::Class(TokSpec::from_val(&l[1])?, l[2].as_bool()?, cl)
+                TaskSpec::Class(tok(&l[1])?, l[2].as_bool()?, cl)
             }
             _ => return None,
         })
@@ -1581,6 +1737,37 @@ impl TaskSpec {
             TaskSpec::Gen(m, t, ign, sep) => TrainTaskConfig::Generation(*m, t.to_real(), *ign, sep.clone()),
             TaskSpec::Cond(ti, ii, tt, it) => TrainTaskConfig::ConditionalGeneration(ti.to_real(), *ii, tt.to_real(), *it),
             TaskSpec::Class(t, ign, cl) => TrainTaskConfig::Classification(t.to_real(), *ign, cl.clone()),
+        }
+    }
+    fn toks_mut(&mut self) -> Vec<&mut TokSpec> {
+        match self {
+            TaskSpec::Wsc(_, t) | TaskSpec::Gen(_, t, _, _) | TaskSpec::Class(t, _, _) => vec![t],
+            TaskSpec::Cond(a, _, b, _) => vec![a, b],
+        }
+    }
+    fn toks(&self) -> Vec<&TokSpec> {
+        match self {
+            TaskSpec::Wsc(_, t) | TaskSpec::Gen(_, t, _, _) | TaskSpec::Class(t, _, _) => vec![t],
+            TaskSpec::Cond(a, _, b, _) => vec![a, b],
+        }
+    }
+    fn kind_tags(&self, tags: &mut Vec<String>) {
+        let ts = self.toks();
+        for t in &ts {
+            let n = match &t.kind {
+                TokKind::Byte => "tok-byte",
+                TokKind::Char { g: true, .. } => "tok-char-g",
+                TokKind::Char { .. } => "tok-char",
+                TokKind::Bpe { file: Some(_), .. } => "tok-bpe-file",
+                TokKind::Bpe { maxv: Some(_), .. } => "tok-bpe-limit",
+                TokKind::Bpe { .. } => "tok-bpe",
+            };
+            if !tags.contains(&n.to_string()) {
+                tags.push(n.to_string());
+            }
+        }
+        if ts.len() == 2 && std::mem::discriminant(&ts[0].kind) != std::mem::discriminant(&ts[1].kind) {
+            tags.push("tok-mixed".into());
         }
     }
     fn name(&self) -> &'static str {
@@ -1820,6 +2007,124 @@ fn titem_val(it: &TrainItem) -> Val {
     Val::L(vec![Val::str(it.data.verif_input()), Val::str(it.data.verif_target()), tinput_val(&it.input)])
 }
 
+fn gen_tok_plain() -> TokSpec {
+    TokSpec {
+        tokens: ["<unk>", "<bos>", "<eos>", "<pad>"].iter().map(|s| s.to_string()).collect(),
+        pad: "<pad>".to_string(),
+        prefix: vec![],
+        suffix: vec![],
+        padto: None,
+        kind: TokKind::Byte,
+    }
+}
+
+/// a merge table made from the words of the texts the tokenizer will see (whitespace-prefixed, as `\s+\S+|^\S+` cuts them):
+/// a "training" that picks random adjacent pairs of the current segmentation, so that merges apply and build on each other;
+/// now and then an entry that never applies
+fn gen_bpe_table(rng: &mut Rng, texts: &[String]) -> Vec<Vec<u8>> {
+    let mut words: Vec<Vec<Vec<u8>>> = vec![];
+    for t in texts {
+        for w in bpec::split_words(t) {
+            words.push(w.bytes().map(|b| vec![b]).collect());
+        }
+    }
+    let n = match rng.below(6) {
+        0 => 0,
+        1 => rng.range(1, 3),
+        _ => rng.range(2, 14),
+    };
+    let mut table: Vec<Vec<u8>> = vec![];
+    for _ in 0..n * 3 {
+        if table.len() >= n {
+            break;
+        }
+        if words.is_empty() || rng.chance(1, 8) {
+            let e: Vec<u8> = (0..rng.range(2, 3)).map(|_| *rng.pick(b"ab <>e\xc3\xa9")).collect();
+            if !table.contains(&e) {
+                table.push(e);
+            }
+            continue;
+        }
+        let wi = rng.below(words.len());
+        if words[wi].len() < 2 {
+            continue;
+        }
+        let i = rng.below(words[wi].len() - 1);
+        let merged = [words[wi][i].as_slice(), words[wi][i + 1].as_slice()].concat();
+        if table.contains(&merged) {
+            continue;
+        }
+        table.push(merged.clone());
+        for w in words.iter_mut() {
+            let mut j = 0;
+            while j + 1 < w.len() {
+                if [w[j].as_slice(), w[j + 1].as_slice()].concat() == merged {
+                    w[j] = merged.clone();
+                    w.remove(j + 1);
+                }
+                j += 1;
+            }
+        }
+    }
+    table
+}
+
+/// give the tokenizers of a task another kind (the special configuration stays, so that what the generators arranged around
+/// prefix / suffix counts stays true); `texts`: what the tokenizers will roughly see
+fn kindify(rng: &mut Rng, task: &mut TaskSpec, texts: &[String]) {
+    let n_toks = task.toks().len();
+    let force = rng.below(n_toks); // at least this one is no byte tokenizer
+    for (k, t) in task.toks_mut().into_iter().enumerate() {
+        let c = rng.below(20);
+        if c < 2 && k != force {
+            continue;
+        }
+        t.padto = None;
+        if c < 11 {
+            t.kind = TokKind::Char {
+                unk: match rng.below(8) {
+                    0 => "<u>".to_string(),
+                    1 => "<pad>".to_string(),
+                    _ => "<unk>".to_string(),
+                },
+                g: rng.chance(1, 2),
+            };
+        } else {
+            if rng.chance(1, 6) {
+                // a token listed twice: `tokens.len()` of the vocabulary limit counts it twice, the vocabulary once
+                t.tokens.push("<eos>".to_string());
+            }
+            let mut table = gen_bpe_table(rng, texts);
+            let n = table.len();
+            let base = 256 + t.tokens.len();
+            let maxv = match rng.below(10) {
+                0..=4 => None,
+                5 => Some(rng.below(300)),
+                6 => Some(base),
+                7 => Some(base + n),
+                _ => Some(base + rng.below(n + 2)),
+            };
+            let mut file = None;
+            if rng.chance(1, 5) {
+                let (bytes, _) = bpec::gen_merge_file(rng, &table);
+                if let Ok((path, mf)) = bpec::write_merge_file(&merge_dir(), &table, Some(&bytes)) {
+                    let _ = std::fs::remove_file(path);
+                    match (&mf.loaded, mf.well_formed()) {
+                        (Some(_), Some(t2)) => {
+                            table = t2;
+                            file = Some(bytes);
+                        }
+                        // the loader refuses the file: the constructor of the task panics — a few such cases
+                        (None, _) if rng.chance(1, 5) => file = Some(bytes),
+                        _ => {}
+                    }
+                }
+            }
+            t.kind = TokKind::Bpe { table, maxv, file };
+        }
+    }
+}
+
 fn gen_tok(rng: &mut Rng) -> TokSpec {
     TokSpec {
         tokens: ["<unk>", "<bos>", "<eos>", "<pad>"].iter().map(|s| s.to_string()).collect(),
@@ -1835,6 +2140,7 @@ fn gen_tok(rng: &mut Rng) -> TokSpec {
             _ => vec!["<eos>".to_string(), "<pad>".to_string()],
         },
         padto: if rng.chance(1, 4) { Some(8) } else { None },
+        kind: TokKind::Byte,
     }
 }
 
@@ -2958,7 +3264,7 @@ struct XPipe {
 }
 
 impl XPipe {
-    fn from_vals(p: &Val, t: &Val, q: &Val, m: &Val, st: &Val, qs: &Val) -> Option<XPipe> {
+    fn from_vals_with(p: &Val, t: &Val, q: &Val, m: &Val, st: &Val, qs: &Val, kinds: bool) -> Option<XPipe> {
         let (per_source, cfgs) = val_pcfg(p, |c| x_mcfg_from_val(c, 0))?;
         let (q_per_source, qcfgs) = val_pcfg(q, |c| x_qcfg_from_val(c, 0))?;
         let maxlen = m.as_usize()?;
@@ -2973,7 +3279,7 @@ impl XPipe {
         if !cfgs.iter().all(|c| mcfg_refs_ok(c, stages.len())) || !qcfgs.iter().all(|c| qcfg_refs_ok(c, qstages.len())) {
             return None;
         }
-        Some(XPipe { pipe: PipeSpec { per_source, cfgs, task: TaskSpec::from_val(t)?, q_per_source, qcfgs, maxlen }, stages, qstages })
+        Some(XPipe { pipe: PipeSpec { per_source, cfgs, task: TaskSpec::from_val_with(t, kinds)?, q_per_source, qcfgs, maxlen }, stages, qstages })
     }
     fn table_vals(&self) -> [Val; 2] {
         [Val::L(self.stages.iter().map(|s| s.to_val()).collect()), Val::L(self.qstages.iter().map(|s| s.to_val()).collect())]
@@ -3558,9 +3864,18 @@ fn add_stages(rng: &mut Rng, spec: &mut PipeSpec, input: &mut String, target: &s
 }
 
 fn xitem_gen(rng: &mut Rng) -> Val {
+    xitem_gen_with(rng, false)
+}
+
+/// `kinds`: line -8, the tokenizers of the task get other kinds
+fn xitem_gen_with(rng: &mut Rng, kinds: bool) -> Val {
     let mut spec = gen_pipe_spec(rng, 2, false);
     let (mut input, target) = gen_item_texts(rng, &spec.task);
     let (stages, qstages) = add_stages(rng, &mut spec, &mut input, &target, false);
+    if kinds {
+        let joined = format!("{}{}", input, target);
+        kindify(rng, &mut spec.task, &[input.clone(), target.clone(), joined]);
+    }
     let x = XPipe { pipe: spec, stages, qstages };
     let seed = if rng.chance(1, 6) { rng.next_u64() } else { rng.below(5000) as u64 };
     let mut marks = HashMap::new();
@@ -3569,7 +3884,7 @@ fn xitem_gen(rng: &mut Rng) -> Val {
     }
     let [p, t, q, m] = x.pipe.vals();
     let [st, qs] = x.table_vals();
-    Val::L(vec![Val::I(-5), p, t, q, m, Val::str(&input), Val::str(&target), hl(seed), Val::u(rng.below(3)), marks_val(&marks), st, qs])
+    Val::L(vec![Val::I(if kinds { -8 } else { -5 }), p, t, q, m, Val::str(&input), Val::str(&target), hl(seed), Val::u(rng.below(3)), marks_val(&marks), st, qs])
 }
 
 impl C08 {
@@ -3578,15 +3893,20 @@ impl C08 {
         if l.len() != 12 {
             return None;
         }
-        let x = XPipe::from_vals(&l[1], &l[2], &l[3], &l[4], &l[10], &l[11])?;
+        // line -8: the same line with every tokenizer kind in the task
+        let kinds = l[0].as_i() == Some(-8);
+        let x = XPipe::from_vals_with(&l[1], &l[2], &l[3], &l[4], &l[10], &l[11], kinds)?;
         let inp = l[5].to_string_lossy()?;
         let tgt = l[6].to_string_lossy()?;
         if inp.chars().count() > 600 || tgt.chars().count() > 400 {
             return None;
         }
         let info = TextDataInfo { seed: un_hl(&l[7])?, file_idx: l[8].as_usize()?, marks: val_marks(&l[9])? };
-        let mut tags = vec!["xitem".to_string()];
+        let mut tags = vec![if kinds { "kitem" } else { "xitem" }.to_string()];
         x.tags(&mut tags);
+        if kinds {
+            x.pipe.task.kind_tags(&mut tags);
+        }
         let real = x.to_real(&self.dir)?;
         let maxlen = x.pipe.maxlen;
         let pipe = match std::panic::catch_unwind(move || train_pipeline(real, maxlen)) {
@@ -3635,6 +3955,10 @@ impl C08 {
 }
 
 fn xbytes_gen(rng: &mut Rng) -> Val {
+    xbytes_gen_with(rng, false)
+}
+
+fn xbytes_gen_with(rng: &mut Rng, kinds: bool) -> Val {
     let nfiles = rng.range(1, 3);
     let strategy = rng.below(3) as i64;
     let mut pipe = gen_pipe_spec(rng, nfiles, true);
@@ -3666,6 +3990,15 @@ fn xbytes_gen(rng: &mut Rng) -> Val {
                 .collect()
         })
         .collect();
+    if kinds {
+        let mut texts: Vec<String> = vec![];
+        for (i, t) in lines.iter().flatten().flatten() {
+            texts.push(i.clone());
+            texts.push(t.clone());
+            texts.push(format!("{}{}", i, t));
+        }
+        kindify(rng, &mut pipe.task, &texts);
+    }
     let total: usize = lines.iter().map(|f| f.len()).sum();
     let world = rng.range(1, 4);
     let lim: i64 = if rng.chance(1, 3) { -1 } else { rng.range(0, total + 2) as i64 };
@@ -3699,7 +4032,7 @@ fn xbytes_gen(rng: &mut Rng) -> Val {
         Val::L(l) => l,
         _ => unreachable!(),
     };
-    v[0] = Val::I(-6);
+    v[0] = Val::I(if kinds { -9 } else { -6 });
     let [st, qs] = x.table_vals();
     v.push(st);
     v.push(qs);
@@ -3719,10 +4052,12 @@ impl C08 {
         if l.len() != 25 {
             return None;
         }
-        let x = XPipe::from_vals(&l[5], &l[6], &l[7], &l[8], &l[23], &l[24])?;
+        let kinds = l[0].as_i() == Some(-9);
+        let x = XPipe::from_vals_with(&l[5], &l[6], &l[7], &l[8], &l[23], &l[24], kinds)?;
         // the loader part is parsed by BSpec with a pipeline that has no references
         let mut plain: Vec<Val> = l[..23].to_vec();
         plain[0] = Val::I(-3);
+        plain[6] = Val::L(vec![Val::I(3), gen_tok_plain().to_val(), Val::I(0), Val::L(vec![Val::str("a"), Val::str("b")])]);
         plain[5] = Val::L(vec![Val::I(0), Val::L(vec![Val::I(0)])]);
         plain[7] = Val::L(vec![Val::I(0), Val::L(vec![Val::I(0)])]);
         let s = BSpec::from_val(&Val::L(plain))?;
@@ -3733,8 +4068,11 @@ impl C08 {
             std::fs::write(&p, f).ok()?;
             paths.push(p.to_string_lossy().to_string());
         }
-        let mut tags = vec!["xbytes".to_string(), format!("strategy{}", s.strategy), format!("world{}", s.world)];
+        let mut tags = vec![if kinds { "kbytes" } else { "xbytes" }.to_string(), format!("strategy{}", s.strategy), format!("world{}", s.world)];
         x.tags(&mut tags);
+        if kinds {
+            x.pipe.task.kind_tags(&mut tags);
+        }
         let real = x.to_real(&self.dir)?;
         let maxlen = x.pipe.maxlen;
         let real2 = real.clone();
@@ -3834,9 +4172,19 @@ impl C08 {
 
 impl Prop for C08 {
     fn gen(&mut self, rng: &mut Rng, _tier: Tier, i: usize, _n: usize) -> Val {
-        // one scenario with an oracle table in ten cases; the others are cases over modelled pipelines
-        match i % 10 {
+        // one scenario with an oracle table in twelve cases; the others are cases over modelled pipelines (10, 11: every tokenizer kind)
+        match i % 12 {
             0 => (),
+            10 => return xitem_gen_with(rng, true),
+            11 => {
+                for _ in 0..8 {
+                    let v = xbytes_gen_with(rng, true);
+                    if self.xbytes_run_inner(&v, true).is_some() {
+                        return v;
+                    }
+                }
+                return xitem_gen_with(rng, true);
+            }
             1 => return exact_gen(rng),
             2 | 3 => return bytes_gen(rng),
             4 => return item_gen(rng),
@@ -3920,7 +4268,7 @@ impl Prop for C08 {
 
     fn canon(&mut self, input: &Val) -> Option<Val> {
         let l = input.as_l()?;
-        if matches!(l.first().and_then(|k| k.as_i()), Some(-1) | Some(-2) | Some(-3) | Some(-4) | Some(-5) | Some(-6) | Some(-7)) {
+        if matches!(l.first().and_then(|k| k.as_i()), Some(-1) | Some(-2) | Some(-3) | Some(-4) | Some(-5) | Some(-6) | Some(-7) | Some(-8) | Some(-9)) {
             return Some(input.clone());
         }
         if l.len() != 11 {
@@ -3959,10 +4307,10 @@ impl Prop for C08 {
         if l.first().and_then(|k| k.as_i()) == Some(-4) {
             return item_run(input);
         }
-        if l.first().and_then(|k| k.as_i()) == Some(-5) {
+        if matches!(l.first().and_then(|k| k.as_i()), Some(-5) | Some(-8)) {
             return self.xitem_run(input);
         }
-        if l.first().and_then(|k| k.as_i()) == Some(-6) {
+        if matches!(l.first().and_then(|k| k.as_i()), Some(-6) | Some(-9)) {
             return self.xbytes_run(input);
         }
         if l.first().and_then(|k| k.as_i()) == Some(-7) {
